@@ -31,6 +31,11 @@ DEFERRED = [
 ]
 
 
+SAME_ROOT_SDL = H.EXEC_SDL + "\nschema { query: Query mutation: Query subscription: Subscription }\n"
+SAME_ROOT_MUTATIONS = [("mutation { count me { name age } people { name } again: count }", {}), ("mutation { me { friends { name } } count }", {})]
+SAME_ROOT_DEFERRED = [[("Query", "me"), ("Query", "count"), ("Query", "people"), ("Person", "name")], [("Person", "name"), ("Person", "age"), ("Person", "friends")]]
+
+
 def serial_contract(log, top_keys, expected_paths):
     """invoke(k[i+1]) after finished(k[i]) incl. its whole sub-selection; returns failure text or None"""
     first_invoke, last_finish, finished = {}, {}, {}
@@ -57,8 +62,9 @@ def serial_contract(log, top_keys, expected_paths):
 def _chunk(args):
     items, cap = args
     fails, n, orders, tmax = [], 0, 0, 0
-    for query, variables, wname, world, dset in items:
-        ref_schema = H.make_schema()
+    for query, variables, wname, world, dset, *more in items:
+        sdl = more[0] if more else H.EXEC_SDL
+        ref_schema = H.make_schema(sdl=sdl)
         exp = H.reference(ref_schema, query, variables, world)
         if exp[0] != "result":
             continue
@@ -72,7 +78,7 @@ def _chunk(args):
             prefix, runs = [], 0
             while prefix is not None and runs < cap:
                 sched = H.Schedule(prefix)
-                got = H.run_request(H.make_schema(dset, asynchronous=asyn), query, variables, world, cfg, schedule=sched)
+                got = H.run_request(H.make_schema(dset, asynchronous=asyn, sdl=sdl), query, variables, world, cfg, schedule=sched)
                 runs += 1
                 n += 1
                 tmax = max(tmax, got.get("tasks", 0))
@@ -104,6 +110,14 @@ def check(tier, seed):
         for dset in DEFERRED:
             for wname, world in worlds:
                 items.append((query, variables, wname, world, dset))
+    # a schema whose mutation root is the SAME type as its query root: what makes an operation serial is that it is a mutation, not what its root type is
+    same_root = H.make_schema(sdl=SAME_ROOT_SDL)
+    for query, variables in SAME_ROOT_MUTATIONS:
+        _n, worlds = H.worlds_for(same_root, query, variables, with_boom=False)
+        worlds = worlds[:1] + rnd.sample(worlds[1:], min(len(worlds) - 1, 3))
+        for dset in SAME_ROOT_DEFERRED:
+            for wname, world in worlds:
+                items.append((query, variables, wname, world, dset, SAME_ROOT_SDL))
     cap = 240 if tier == "thorough" else 30
     jobs = 16
     size = max(1, len(items) // (jobs * 4))
